@@ -22,6 +22,13 @@ def plan(tier, seed):
     dj = [{'template': t} for t in ('globals-repeat', 'macro-code', 'mutable-args', 'render-keywords')]
     famD = dict(name='determinism_no_carried_state', module=H, fn='determinism', jobs=dj, timeout=900, vacuity=1,
                 program_key='template', mutants=[{'name': 'shared_repeat_dict', 'cfg': {'template': 'globals-repeat'}}])
+    # where the language leaves an order open to the implementation, the output follows the statement's order (and
+    # so cannot depend on set iteration / the hash seed of the process): C10's program with five attributes that
+    # exist only in i18n:attributes, against the reference
+    from checks import C10
+    oj = [j for j in C10.plan(tier, seed)['families'][0]['jobs'] if j.get('label') == 'translation-only-attributes']
+    famO = dict(name='output_order_is_the_statement_order', module='checks.hG', fn='H', jobs=oj, timeout=300, vacuity=1,
+                program_key='label', mutants=[])
     # a loader (and the templates it creates) must not modify the search-path list its caller owns, and what was
     # loaded earlier must not change how later names resolve (C16's loader-history harness, symbolic existence matrix)
     lj = [{'ext': '.pt', 'dirs': 2, 'getitem': False, 'loads': 2}, {'ext': None, 'dirs': 2, 'getitem': True, 'loads': 2}]
@@ -49,5 +56,5 @@ def plan(tier, seed):
                 'to the solver).' % (k, kk)),
         assumptions=['statement-granular interleaving (CPython may switch inside a statement)',
                      'compile step stubbed by a version-tagged function table: the subject is the publish protocol'],
-        families=[famT, famS, famD, famL],
+        families=[famT, famS, famD, famO, famL],
     )
